@@ -13,16 +13,20 @@ from vlib.py2coq import Unsupported
 LEVEL = "proof"
 META = {
     "category": "proof",
-    "text": "Coq theorems: the optimiser's compile-time arithmetic equals the EVM word operation for all legal literals "
-            "(fold table and utils helpers regenerated from /repo each run); every rewrite of _optimize_binop / "
-            "_comparison_helper preserves value and effect trace (truthiness in truthy contexts), never drops or "
-            "duplicates a complex argument; the peephole patterns preserve the stack. The models are tied to the "
-            "source by exact output equality on a complete boundary grid and by executing the same IR with and without "
-            "the optimisers on an EVM.",
-    "level_note": "Trusted: Coq kernel + vm_compute, py2coq translator, Word256.v (tied to pyrevm by C14's wordtie), "
-                  "hand models of _optimize_binop/_comparison_helper/peephole tied by exact-output differential on "
-                  "the grid (exhaustive on the grid, sampled beyond). The recursion of _optimize over whole trees and "
-                  "the seq merge functions are covered by the EVM differential only.",
+    "text": "Coq theorems, for every compositional semantics of the IR node kinds the optimiser does not interpret and every "
+            "state space (hypotheses SemOk / MemOk, shown satisfiable): the optimiser's compile-time arithmetic equals the EVM "
+            "word operation for all legal literals (fold table and utils helpers regenerated from /repo each run); every "
+            "rewrite of _optimize_binop / _comparison_helper and the whole-tree recursion of _optimize (optimize_sound) preserve "
+            "value, state and halting (truthiness in truthy contexts); the seq-level merges (memzero, calldataload/dload/"
+            "mload copies with the overlap guard) preserve memory; each assembly peephole pass preserves halting behaviour on "
+            "a labelled-program semantics. Models are tied to the source by exact output equality (complete boundary grid, "
+            "seeded random trees, generated and compiler-emitted assemblies) and by executing the same IR / assembly / "
+            "contracts with and without the optimisers on an EVM.",
+    "level_note": "Trusted: Coq kernel + vm_compute, py2coq translator, Word256.v (tied to pyrevm by C14's wordtie), hand models "
+                  "tied by exact-output differential (exhaustive on the grid, sampled beyond). Memory model without gas: "
+                  "merges over negative literal offsets are declined (no claim). Per-pass hypotheses on uninterpreted "
+                  "instructions (0/1 results of CALL-like ops, label names not inspected) and unique labels. No single "
+                  "theorem for the composed optimize_assembly loop.",
     "technique": "Coq proof over py2coq-translated source and hand models + exact-output differential + EVM differential",
 }
 
@@ -476,6 +480,8 @@ def run(ctx):
     # ---- observation (always): EVM differential
     found += evm_grid(ctx, differ)
     T["evm_grid"] = round(time.time() - t0, 1); t0 = time.time()
+    grid_panics = list(differ.panics)     # later phases feed random trees: there the IRnode range assertion of the
+    #                                       ceil32 fold is an expected outcome ("ASSERT", agreed with the model)
     gf, gcalls = glue_corpus(ctx)
     found += gf
     T["glue"] = round(time.time() - t0, 1); t0 = time.time()
@@ -502,7 +508,7 @@ def run(ctx):
     elif gen_err is None and not b["ok"] and not found:
         ctx.violation("theorem-broken", f"{b.get('failed_lemma')} in {b['file']}",
                       {"theorem": b.get("failed_lemma"), "file": b["file"], "coq_output": b["out"][-1500:]})
-    for irl, msg in differ.panics[:3]:
+    for irl, msg in grid_panics[:3]:
         ctx.violation("correspondence-broken", "optimizer raised on a legal IR snippet", {"ir": repr(irl), "error": msg})
     ctx.corr["evm_programs"] = differ.programs
     ctx.corr["evm_calls"] = differ.calls
